@@ -92,6 +92,7 @@ func (e *Engine) verifyFunction(c *Contract, init *State) (res *FuncResult) {
 	e.pairs = map[int][2]*Term{}
 	e.replacers = map[int][]*Term{}
 	e.tmplFuncs = map[int]*Term{}
+	e.callHist = map[string]*Term{}
 	e.allocParent = map[int]*Term{}
 	e.topFn = fn
 	e.topContract = c
